@@ -278,6 +278,16 @@ def real_instance(id, y, ref, eps, params=None, meta=None, conds=()):
     return rel_instance(id, Fraction(y), ref, Fraction(eps), conds=conds, params=params, meta=meta)
 
 
+def tail_instance(id, y, lo, tau, eps, params=None, meta=None):
+    """The true value r is only known to lie in [lo, lo + tau] (lo: a proper integral, tau >= 0: an analytic bound of the
+    neglected tail, an ASSUMED textbook inequality).  Bound : |y - lo| + tau <= eps*(|lo| - tau)   (=> |y - r| <= eps|r| for
+    every r in the range);  violation: eps*(|lo| + tau) < |y - lo| - tau   (=> |y - r| > eps|r| for every such r)."""
+    y = lift(Fraction(y)); lo = lift(lo); tau = lift(tau); eps = Const(Fraction(eps))
+    d = cert.rabs(y - lo)
+    return atoms_instance(id, [(d + tau, "<=", eps * (cert.rabs(lo) - tau))], [[(eps * (cert.rabs(lo) + tau), "<", d - tau)]],
+                          params=params, meta=meta)
+
+
 def bracket_instance(id, lo_term, target, hi_term, params=None, meta=None):
     """monotone-inverse certificate: lo_term <= target <= hi_term (real terms); negation: either side fails."""
     lo_term = lift(lo_term); hi_term = lift(hi_term); target = lift(target)
@@ -302,10 +312,10 @@ def meta_gamma_rec(id, x, y1, y2, eps, p, meta=None):
     tac = ("first [ interval with (i_prec {prec}) | intros G HG; apply (gamma_rec_violation G); "
            "[ split; interval | exact HG | interval with (i_prec {prec}) ] ]")
     m = dict(meta or {}); m["metamorphic"] = True
-    return Instance(id, goal, [neg], kind="R", prec=2 * p + 64, hint="pass" if ok else "fail", tactic=tac, meta=m)
+    return Instance(id, goal, [neg], kind="R", prec=p + 48, hint="pass" if ok else "fail", tactic=tac, meta=m)
 
 
-def meta_lin(id, coeffs, ys, eps, p, c_term=0, meta=None):
+def meta_lin(id, coeffs, ys, eps, p, c_term=0, meta=None, integral=None):
     """a0*g0 + a1*g1 (+ a2*g2) = c  (exact rational coefficients a_i, c a closed real term, usually rational), y_i ~ g_i.
     The violation statement quantifies over arbitrary reals g_i satisfying the identity (as the true values do)."""
     a = [Fraction(c) for c in coeffs]; y = [Fraction(v) for v in ys]; e = Fraction(eps)
@@ -326,10 +336,13 @@ def meta_lin(id, coeffs, ys, eps, p, c_term=0, meta=None):
         f = lambda q: ctx.mpf(q.numerator) / q.denominator
         ok = (1 - f(e)) * abs(sum(f(c) * f(v) for c, v in zip(a, y)) - cv) <= f(e) * sum(abs(f(c) * f(v)) for c, v in zip(a, y))
     lemma = "lin3_violation" if n == 3 else "lin2_violation"
-    tac = ("first [ interval with (i_prec {prec}) | intros %s HG; apply (%s %s (%s) %s %s); "
-           "[ split; interval | exact HG | interval with (i_prec {prec}) ] ]" % (" ".join(gs), lemma, EE, C, " ".join(A), " ".join(gs)))
+    itac = "interval with (i_prec {prec})"
+    if integral:             # c contains one RInt: Interval's `integral` tactic (fuel, degree)
+        itac = "integral with (i_prec {prec}, i_fuel %d, i_degree %d)" % tuple(integral)
+    tac = ("first [ %s | intros %s HG; apply (%s %s (%s) %s %s); "
+           "[ split; interval | exact HG | %s ] ]" % (itac, " ".join(gs), lemma, EE, C, " ".join(A), " ".join(gs), itac))
     m = dict(meta or {}); m["metamorphic"] = True
-    return Instance(id, goal, [neg], kind="R", prec=2 * p + 64, hint="pass" if ok else "fail", tactic=tac, meta=m)
+    return Instance(id, goal, [neg], kind="RI" if integral else "R", prec=p + 48, hint="pass" if ok else "fail", tactic=tac, meta=m)
 
 
 def meta_prod2(id, c_term, ys, eps, p, gtext=None, meta=None):
@@ -353,7 +366,7 @@ def meta_prod2(id, c_term, ys, eps, p, gtext=None, meta=None):
     tac = ("first [ interval with (i_prec {prec}) | %s; apply (prod2_violation %s (%s) (%s) (%s)); "
            "[ interval | exact HG | interval with (i_prec {prec}) ] ]" % (intro, EE, C, g1, g2))
     m = dict(meta or {}); m["metamorphic"] = True
-    return Instance(id, goal, [neg], kind="R", prec=2 * p + 64, hint="pass" if ok else "fail", tactic=tac, meta=m)
+    return Instance(id, goal, [neg], kind="R", prec=p + 48, hint="pass" if ok else "fail", tactic=tac, meta=m)
 
 
 def meta_prod3(id, c_term, ys, eps, p, gtext=None, meta=None):
@@ -374,7 +387,7 @@ def meta_prod3(id, c_term, ys, eps, p, gtext=None, meta=None):
     tac = ("first [ interval with (i_prec {prec}) | %s; apply (prod3_violation %s (%s) (%s) (%s) (%s)); "
            "[ split; interval | exact HG | interval with (i_prec {prec}) ] ]" % (intro, EE, C, g1, g2, g3))
     m = dict(meta or {}); m["metamorphic"] = True
-    return Instance(id, goal, [neg], kind="R", prec=2 * p + 64, hint="pass" if ok else "fail", tactic=tac, meta=m)
+    return Instance(id, goal, [neg], kind="R", prec=p + 48, hint="pass" if ok else "fail", tactic=tac, meta=m)
 
 
 def meta_wronskian(id, c_term, ys, eps, p, meta=None):
@@ -392,7 +405,7 @@ def meta_wronskian(id, c_term, ys, eps, p, meta=None):
     tac = ("first [ interval with (i_prec {prec}) | intros g1 g2 g3 g4 HG; apply (wronskian_violation %s (%s) g1 g2 g3 g4); "
            "[ split; interval | exact HG | interval with (i_prec {prec}) ] ]" % (EE, C))
     m = dict(meta or {}); m["metamorphic"] = True
-    return Instance(id, goal, [neg], kind="R", prec=2 * p + 64, hint="pass" if ok else "fail", tactic=tac, meta=m)
+    return Instance(id, goal, [neg], kind="R", prec=p + 48, hint="pass" if ok else "fail", tactic=tac, meta=m)
 
 
 # ============================================================================================ kinds
@@ -496,7 +509,7 @@ def one_case(ctx, cid, kind, args, p, stats, params=None):
     call["result"] = [[str(v) if not isinstance(v, Fraction) else list(dyadic(v)) for v in yv[1:]] for yv in yvs]
     eps = eps_of(p)
     meta = {"fn": kind.fn, "regime": kind.regime, "p": p, "call": cid, "kind_name": kind.name}
-    pr = dict(params or {}); pr.update(kind.params or {})
+    pr = dict(params or {}); pr.update((kind.params(p) if callable(kind.params) else kind.params) or {})
     try:
         if kind.build:
             r = kind.build(cid, kind, args, p, yvs, eps, meta, pr)
